@@ -61,6 +61,15 @@ typedef struct cprog_s {
 #define NSLOTS 96
 typedef struct slot_s { uint8_t* p; size_t req, usable; uint64_t seed; int live; int owner; int arena; mi_memid_t memid; int in_transit; int free_returned; } slot_t;
 static slot_t  g_slots[NSLOTS];
+/* the hand-over flags are accessed with (uninstrumented) atomic builtins: no effect under the token scheduler, and properly
+   synchronised hand-overs in the free-running race pass */
+#define LIVE(i)            __atomic_load_n(&g_slots[i].live, __ATOMIC_ACQUIRE)
+#define FREE_RET(i)        __atomic_load_n(&g_slots[i].free_returned, __ATOMIC_ACQUIRE)
+#define SET_FREE_RET(i, v) __atomic_store_n(&g_slots[i].free_returned, (v), __ATOMIC_RELEASE)
+/* free-running threads must claim a slot atomically before they release it (under the token the test and the release are one step) */
+#define CLAIM(i)           (g_race ? __atomic_exchange_n(&g_slots[i].live, 0, __ATOMIC_ACQ_REL) : LIVE(i))
+#define SPIN_MAX (g_race ? 2000000000L : 100000L)
+static int     g_race = 0;                  /* race pass: threads run freely under ThreadSanitizer; the cross-thread oracles are off */
 static mi_heap_t* g_hs[4];
 static long    g_pages_mark[8];
 static uint64_t g_out[VF_MAX_THREADS];      /* per-thread observation hash */
@@ -77,7 +86,8 @@ static void obs(int tid, uint64_t v) { g_out[tid] = vf_mix(g_out[tid] ^ v); }
 
 /* ---------------- shared model (only the token holder runs, so no locking) ------------------------- */
 static int check_live_patterns(const char* when, int tid) {
-  for (int i = 0; i < NSLOTS; i++) if (g_slots[i].live && !g_slots[i].in_transit) {
+  if (g_race) return 0;      /* reading other threads' blocks while they free them would be a race of the harness itself */
+  for (int i = 0; i < NSLOTS; i++) if (LIVE(i) && !g_slots[i].in_transit) {
     long bad = vf_pat_check(g_slots[i].p, g_slots[i].usable, g_slots[i].seed);
     VF_INC(checks);
     if (bad >= 0) { SVIOL("contents-changed", "%s (thread %d): live block in slot %d %p (req %zu, allocated by thread %d) changed at offset %ld", when, tid, i, g_slots[i].p, g_slots[i].req, g_slots[i].owner, bad); return -1; }
@@ -90,7 +100,7 @@ static int model_add(int slot, void* ptr, size_t req, int tid, const char* what)
   if (p == NULL) { SVIOL("null-result", "thread %d: %s(%zu) returned NULL", tid, what, req); return -1; }
   size_t usable = (g_slots[slot].arena ? req : mi_usable_size(p));
   if (usable < req) { SVIOL("usable-too-small", "thread %d: %s(%zu): usable %zu", tid, what, req, usable); return -1; }
-  for (int i = 0; i < NSLOTS; i++) if (g_slots[i].live && i != slot) {
+  for (int i = 0; i < NSLOTS && !g_race; i++) if (LIVE(i) && i != slot) {
     if (p < g_slots[i].p + g_slots[i].usable && g_slots[i].p < p + usable) {
       SVIOL("overlap", "thread %d: %s(%zu) = [%p,+%zu) overlaps the live block in slot %d [%p,+%zu) allocated by thread %d: the same memory has two owners", tid, what, req, p, usable, i, g_slots[i].p, g_slots[i].usable, g_slots[i].owner);
       return -1;
@@ -100,7 +110,7 @@ static int model_add(int slot, void* ptr, size_t req, int tid, const char* what)
   slot_t* s = &g_slots[slot];
   s->p = p; s->req = req; s->usable = usable; s->owner = tid; s->seed = vf_mix((uintptr_t)p ^ (req * 31) ^ ((uint64_t)slot << 40));
   vf_pat_write(p, usable, s->seed);
-  s->live = 1; s->in_transit = 0; s->free_returned = 0;
+  s->in_transit = 0; s->free_returned = 0; __atomic_store_n(&s->live, 1, __ATOMIC_RELEASE);
   obs(tid, (uintptr_t)p);
   return 0;
 }
@@ -110,27 +120,29 @@ static int model_remove(int slot, int tid) {
   long bad = vf_pat_check(s->p, s->usable, s->seed);
   VF_INC(checks);
   if (bad >= 0) { SVIOL("contents-changed", "thread %d: block in slot %d %p changed at offset %ld before it was freed", tid, slot, s->p, bad); return -1; }
-  s->live = 0;
+  __atomic_store_n(&s->live, 0, __ATOMIC_RELEASE);
   return 0;
 }
 
 static mi_heap_t* backing_of_thread0;
 
 /* ---------------- interpreter ------------------------------------------------------------------------ */
+static int g_selftest; static volatile long g_selftest_ctr;   /* race-pass self-test: an unsynchronised counter that every thread bumps */
 static int exec_ops(const cop_t* ops, int tid, int explored) {
   for (int k = 0; k < MAXOPS && ops[k].code != C_END; k++) {
     const cop_t* o = &ops[k];
+    if (g_selftest && explored) g_selftest_ctr = g_selftest_ctr + 1;
     if (vf_sh->stop && explored) { /* keep going: the execution must still terminate cleanly */ }
     switch (o->code) {
       case C_INIT: { void* t = mi_malloc(64); mi_free(t); break; }
-      case C_MALLOC: { void* p = mi_malloc((size_t)o->a); if (model_add((int)o->b, p, (size_t)o->a, tid, "mi_malloc")) return -1; break; }
+      case C_MALLOC: { void* p = mi_malloc((size_t)o->a); if (getenv("VF_DBG_SEG")) fprintf(stderr, "[t%d] malloc(%ld) slot %ld = %p segment %p (slot1 segment %p)\n", tid, o->a, o->b, p, (void*)_mi_ptr_segment(p), (void*)_mi_ptr_segment(g_slots[1].p)); if (model_add((int)o->b, p, (size_t)o->a, tid, "mi_malloc")) return -1; break; }
       case C_FILL: for (long i = 0; i < o->c; i++) { void* p = mi_malloc((size_t)o->a); if (model_add((int)(o->b + i), p, (size_t)o->a, tid, "mi_malloc")) return -1; } break;
-      case C_FREE: if (g_slots[o->a].live) { void* p = g_slots[o->a].p; if (model_remove((int)o->a, tid)) return -1; mi_free(p); obs(tid, 0xF0 + (uint64_t)o->a); } else obs(tid, 0xE0); break;
-      case C_FREE_WAIT: { long spins = 0; while (!g_slots[o->a].live) { vf_yield(); if (++spins > 100000) { SVIOL("livelock", "thread %d waits forever for slot %ld", tid, o->a); return -1; } }
-                          void* p = g_slots[o->a].p; if (model_remove((int)o->a, tid)) return -1; mi_free(p); g_slots[o->a].free_returned = 1; break; }
-      case C_FREE_RANGE_WAIT: for (long i = 0; i < o->b; i++) { long spins = 0; while (!g_slots[o->a + i].live) { vf_yield(); if (++spins > 100000) { SVIOL("livelock", "thread %d waits forever for slot %ld", tid, o->a + i); return -1; } }
-                              void* p = g_slots[o->a + i].p; if (model_remove((int)(o->a + i), tid)) return -1; mi_free(p); g_slots[o->a + i].free_returned = 1; if (check_live_patterns("after free", tid)) return -1; } break;
-      case C_REALLOC: if (g_slots[o->a].live) {
+      case C_FREE: if (CLAIM(o->a)) { void* p = g_slots[o->a].p; if (model_remove((int)o->a, tid)) return -1; mi_free(p); obs(tid, 0xF0 + (uint64_t)o->a); } else obs(tid, 0xE0); break;
+      case C_FREE_WAIT: { long spins = 0; while (!LIVE(o->a)) { vf_yield(); if (++spins > SPIN_MAX) { SVIOL("livelock", "thread %d waits forever for slot %ld", tid, o->a); return -1; } }
+                          void* p = g_slots[o->a].p; if (model_remove((int)o->a, tid)) return -1; mi_free(p); SET_FREE_RET(o->a, 1); break; }
+      case C_FREE_RANGE_WAIT: for (long i = 0; i < o->b; i++) { long spins = 0; while (!LIVE(o->a + i)) { vf_yield(); if (++spins > SPIN_MAX) { SVIOL("livelock", "thread %d waits forever for slot %ld", tid, o->a + i); return -1; } }
+                              void* p = g_slots[o->a + i].p; if (model_remove((int)(o->a + i), tid)) return -1; mi_free(p); SET_FREE_RET(o->a + i, 1); if (check_live_patterns("after free", tid)) return -1; } break;
+      case C_REALLOC: if (CLAIM(o->a)) {
           slot_t old = g_slots[o->a]; g_slots[o->a].in_transit = 1;
           void* q = mi_realloc(old.p, (size_t)o->b);
           if (q == NULL) { SVIOL("null-result", "thread %d: mi_realloc returned NULL", tid); return -1; }
@@ -152,10 +164,10 @@ static int exec_ops(const cop_t* ops, int tid, int explored) {
       case C_GENERIC99: { mi_heap_t* h = mi_heap_get_default(); h->generic_count = 99; break; }
       case C_COLLECT_REDUCE: mi_collect_reduce((size_t)o->a); break;
       case C_PAGES_MARK: g_pages_mark[o->a] = (long)mi_heap_get_backing()->page_count; if (g_pages_mark[o->a] > vf_sh->counters[6]) vf_sh->counters[6] = g_pages_mark[o->a]; break;
-      case C_WAIT_LIVE: { long spins = 0; while (!g_slots[o->a].live) { vf_yield(); if (++spins > 100000) { SVIOL("livelock", "thread %d waits forever for slot %ld", tid, o->a); return -1; } } break; }
+      case C_WAIT_LIVE: { long spins = 0; while (!LIVE(o->a)) { vf_yield(); if (++spins > SPIN_MAX) { SVIOL("livelock", "thread %d waits forever for slot %ld", tid, o->a); return -1; } } break; }
       case C_DUMP: { mi_heap_t* h = mi_heap_get_default(); fprintf(stderr, "[t%d] pages=%zu", tid, h->page_count); for (int b = 0; b <= MI_BIN_FULL; b++) for (mi_page_t* pg = h->pages[b].first; pg; pg = pg->next) fprintf(stderr, " [bin%d bs=%zu used=%d fl=%d]", b, mi_page_block_size(pg), pg->used, (int)mi_page_thread_free_flag(pg)); fprintf(stderr, "\n"); break; }
       case C_PAGES_LE: { long now = (long)mi_heap_get_backing()->page_count; VF_INC(checks); if (now > g_pages_mark[o->a]) { SVIOL("freed-blocks-not-reused", "thread %d: %ld blocks were freed by another thread and the same number allocated again, but the heap grew from %ld to %ld pages: the remotely freed blocks were not reusable by the owner", tid, o->b, g_pages_mark[o->a], now); return -1; } break; }
-      case C_WAIT_FREED: case C_WAIT_FREE_DONE: { long spins = 0; for (;;) { int pending = 0; for (long i = 0; i < o->b; i++) if (g_slots[o->a + i].live || g_slots[o->a + i].p == NULL || (o->code == C_WAIT_FREE_DONE && !g_slots[o->a + i].free_returned)) pending = 1; if (!pending) break; vf_yield(); if (++spins > 100000) { SVIOL("livelock", "thread %d waits forever for slots %ld..", tid, o->a); return -1; } } break; }
+      case C_WAIT_FREED: case C_WAIT_FREE_DONE: { long spins = 0; for (;;) { int pending = 0; for (long i = 0; i < o->b; i++) if (LIVE(o->a + i) || g_slots[o->a + i].p == NULL || (o->code == C_WAIT_FREE_DONE && !FREE_RET(o->a + i))) pending = 1; if (!pending) break; vf_yield(); if (++spins > SPIN_MAX) { SVIOL("livelock", "thread %d waits forever for slots %ld..", tid, o->a); return -1; } } break; }
       case C_TICK: vf_os.clock_ms += o->a; break;
       case C_SUBPROC: { mi_subproc_id_t sp = mi_subproc_new(); mi_subproc_add_current_thread(sp); break; }
       case C_ARENA_ALLOC: {
@@ -170,14 +182,14 @@ static int exec_ops(const cop_t* ops, int tid, int explored) {
           size_t ai; size_t bi; mi_arena_memid_indices(memid, &ai, &bi);
           uintptr_t s = (uintptr_t)mi_arena_from_index(ai)->start, e = s + mi_arena_block_size(mi_arena_from_index(ai)->block_count);
           if ((uintptr_t)p < s || (uintptr_t)p + size > e) { SVIOL("outside-arena", "thread %d: arena allocation [%p,+%zu) lies outside the arena [%p,%p)", tid, p, size, (void*)s, (void*)e); return -1; }
-          for (int i = 0; i < NSLOTS; i++) if (i != o->b && g_slots[i].live && g_slots[i].arena) {
+          for (int i = 0; i < NSLOTS && !g_race; i++) if (i != o->b && LIVE(i) && g_slots[i].arena) {
             uintptr_t a0 = (uintptr_t)g_slots[i].p, a1 = a0 + g_slots[i].req;
             if ((uintptr_t)p < a1 && a0 < (uintptr_t)p + size) { SVIOL("arena-overlap", "thread %d: arena claim [%p,+%zu) overlaps the live claim of slot %d [%p,+%zu)", tid, p, size, i, (void*)a0, g_slots[i].req); return -1; }
           }
         }
         break;
       }
-      case C_ARENA_FREE: if (g_slots[o->a].live) { slot_t s = g_slots[o->a]; if (model_remove((int)o->a, tid)) return -1; _mi_arena_free(s.p, s.req, s.req, s.memid); } break;
+      case C_ARENA_FREE: if (CLAIM(o->a)) { slot_t s = g_slots[o->a]; if (model_remove((int)o->a, tid)) return -1; _mi_arena_free(s.p, s.req, s.req, s.memid); } break;
       case C_ARENAS_COLLECT: _mi_arenas_collect(o->a != 0); break;
     }
     if (check_live_patterns("after operation", tid)) return -1;
@@ -191,6 +203,7 @@ static void t_setup(int tid) { if (exec_ops(g_prog->setup[tid], tid, 0)) g_faile
 /* what a thread can observe of the allocator when it is done: part of the execution's outcome (vacuity guard: many
    executions with a single outcome mean that nothing collided) */
 static void observe_state(int tid) {
+  if (g_race) return;        /* walks lists that other threads push to: meaningful only under the token scheduler */
   mi_heap_t* h = mi_prim_get_default_heap();
   if (h == NULL || !mi_heap_is_initialized(h)) { obs(tid, 0xDEAD); return; }
   size_t dl = 0; for (mi_block_t* b = mi_atomic_load_ptr_relaxed(mi_block_t, &h->thread_delayed_free); b != NULL && dl < 1000; b = mi_block_nextx(h, b, h->keys)) dl++;
@@ -215,7 +228,7 @@ static void t_teardown(int tid) {
       g_failed = 1; return;
     }
   }
-  for (int i = 0; i < NSLOTS; i++) if (g_slots[i].live && (g_slots[i].owner == tid || tid == 0)) {
+  for (int i = 0; i < NSLOTS; i++) if (LIVE(i) && (g_slots[i].owner == tid || tid == 0)) {
     slot_t s = g_slots[i];
     if (model_remove(i, tid)) { g_failed = 1; return; }
     if (s.arena) _mi_arena_free(s.p, s.req, s.req, s.memid); else mi_free(s.p);
@@ -254,6 +267,7 @@ static void c_before(void) {
 static void c_after(vf_trace_t* tr) {
   uint64_t h = 0; for (int i = 0; i < VF_MAX_THREADS; i++) h = vf_mix(h ^ g_out[i]);
   tr->outcome = h;
+  if (getenv("VF_DBG_SEG")) vf_os_dump(2);
   if (g_failed) return;
   if (g_prog->leakcheck) {
     /* every thread is gone, every block was freed; the main thread force-collects (which also adopts and frees what is
@@ -328,6 +342,12 @@ static const cprog_t progs[] = {
     .setup = { { { C_INIT } }, { { C_INIT } }, { { C_FILL, S8, 0, 8 }, { C_THREAD_DONE } } },
     .run   = { { { C_FREE, 7 }, { C_FILL, S8, 10, 9 }, { C_PAGES_MARK, 0 }, { C_WAIT_FREE_DONE, 0, 3 }, { C_GENERIC99 }, { C_FILL, S8, 20, 3 }, { C_PAGES_LE, 0, 3 } },
                { { C_WAIT_LIVE, 10 }, { C_FREE_RANGE_WAIT, 0, 3 } }, { { C_END } } } },
+  /* AB1: an abandoned segment with a live page and a free span whose purge is pending; one thread runs a forced collect (which
+     visits abandoned segments and purges them) while another adopts the segment (by freeing one of its blocks, reclaim-on-free)
+     and allocates 1 MiB blocks, which land in the span */
+  { .name = "AB1", .nthreads = 3, .quiescence = 0,
+    .setup = { { { C_INIT } }, { { C_INIT } }, { { C_FILL, S8, 0, 2 }, { C_MALLOC, 1 * MiB, 5 }, { C_FREE, 5 }, { C_THREAD_DONE } } },
+    .run   = { { { C_COLLECT, 1 } }, { { C_FREE, 0 }, { C_MALLOC, 1 * MiB, 6 }, { C_MALLOC, 1 * MiB, 7 } }, { { C_END } } } },
   /* E1: thread exit racing a remote free of one of its blocks and an allocation that reclaims */
   { .name = "E1", .leakcheck = 1, .nthreads = 3, .quiescence = 0,
     .setup = { { { C_INIT } }, { { C_MALLOC, S8, 0 }, { C_MALLOC, S8, 1 } }, { { C_INIT } } },
@@ -435,7 +455,7 @@ int main(int argc, char** argv) {
     for (size_t i = 0; i < NPROGS; i++) if (strcmp(progs[i].name, pname) == 0) g_prog = &progs[i];
     if (!g_prog) { fprintf(stderr, "unknown program %s\n", pname); return 2; }
   }
-  if (replay) {
+  if (replay && !strstr(vf_cfg, " race")) {
     vp.nthreads = g_prog->nthreads;
     snprintf(vf_cfg, sizeof(vf_cfg), "%s bound=%d sbound=%d", g_prog->name, cfg.bound, cfg.sbound);
     int r = vf_replay_schedule(&vp, &cfg);
@@ -444,6 +464,43 @@ int main(int argc, char** argv) {
     return vf_sh->nviol > 0 ? 1 : 0;
   }
   int lo = (fam_lo >= 0 ? fam_lo : 0), hi = (fam_lo >= 0 ? (fam_hi < family_count() ? fam_hi : family_count()) : 1);
+  int race_runs = atoi(vf_arg(argc, argv, "--race", "0"));
+  if (replay && strstr(vf_cfg, " race")) race_runs = 100;
+  if (race_runs > 0) {
+    /* race pass (build variant tsan): the same program bodies with free-running threads, `race_runs` times each, every run in a
+       fresh process. The token scheduler only interleaves at atomic operations, lock operations and address-space calls: it
+       relies on plain accesses being ordered by those. This pass keeps that assumption honest: ThreadSanitizer watches the plain
+       accesses of the free-running threads; a report makes the child exit with status 66 and is written to the log given in
+       TSAN_OPTIONS (--race-log names the same prefix so that the first report can be quoted). A supplementary sampling pass:
+       it decides nothing about the schedules explored, it only guards their premise. */
+    const char* rlog = vf_arg(argc, argv, "--race-log", NULL);
+    long runs = 0, flagged = 0, failed = 0; const char* first_prog = NULL;
+    g_race = 1; vf_sched_free_run(1); g_selftest = (getenv("VF_RACE_SELFTEST") != NULL);
+    for (int k = lo; k < hi; k++) {
+      if (fam_lo >= 0 && !replay) g_prog = family_prog(k);
+      vp.nthreads = g_prog->nthreads;
+      snprintf(vf_cfg, sizeof(vf_cfg), "%s race", g_prog->name);
+      for (int r = 0; r < race_runs; r++) {
+        pid_t pid = fork();
+        if (pid == 0) { static vf_trace_t tr; vf_child_exec(&vp, &cfg, NULL, 0, &tr); exit(vf_sh->nviol > 0 ? 1 : 0); }
+        int status = 0; waitpid(pid, &status, 0); runs++;
+        if (WIFEXITED(status) && WEXITSTATUS(status) == 66) { if (!flagged) first_prog = g_prog->name; flagged++; }
+        else if (!(WIFEXITED(status) && WEXITSTATUS(status) == 0)) { failed++; if (vf_verbose) fprintf(stderr, "race run of %s ended with status 0x%x\n", g_prog->name, status); }
+      }
+      if (flagged && vf_sh->nviol == 0) {
+        char summary[300] = "(no log)"; 
+        if (rlog) { char cmd[600]; snprintf(cmd, sizeof(cmd), "grep -h -m1 SUMMARY %s.* 2>/dev/null | head -1", rlog); FILE* f = popen(cmd, "r"); if (f) { if (fgets(summary, sizeof(summary), f)) { size_t l = strlen(summary); if (l && summary[l - 1] == '\n') summary[l - 1] = 0; } pclose(f); } }
+        vf_depth = 0;
+        vf_violation("data-race", "ThreadSanitizer reported a data race in %ld of %ld free-running executions of program %s: %s (reports: %s.*)", flagged, runs, first_prog, summary, rlog ? rlog : "stderr");
+      }
+    }
+    char ex[300]; snprintf(ex, sizeof(ex), "\"prog\":\"%s\",\"race_runs\":%ld,\"race_flagged_runs\":%ld,\"race_failed_runs\":%ld", fam_lo >= 0 ? "family" : g_prog->name, runs, flagged, failed);
+    VF_ADD(nodes, runs);
+    if (replay) { if (vf_sh->nviol > 0) printf("REPLAY violation key=%s msg=%s\n", vf_sh->viol[0].key, vf_sh->viol[0].msg); else printf("REPLAY no violation\n"); return vf_sh->nviol > 0 ? 1 : 0; }
+    if (out) vf_write_result(out, ex);
+    if (failed > 0) { fprintf(stderr, "%ld race runs ended abnormally\n", failed); return 2; }
+    return vf_sh->nviol > 0 ? 1 : 0;
+  }
   for (int k = lo; k < hi && rc == 0 && !vf_sh->deadline_hit; k++) {
     if (fam_lo >= 0) g_prog = family_prog(k);
     vp.nthreads = g_prog->nthreads;
